@@ -277,6 +277,58 @@ def evaluate(gs1, items, sep, paren, rng, tier, viols, cells, counters):
     return evals
 
 
+def mapping_first(gs1, ais, rng, tier, viols, cells, counters):
+    """Mappings written by a caller (not obtained by decoding): date and date-time values inside the window on which
+    the two-digit-year conventions agree (strptime's 1969-2068 pivot and the -49/+50 year window of the GS1
+    specifications) are encoded and decoded again."""
+    import datetime
+    today = datetime.date.today()
+    y_lo, y_hi = max(1969, today.year - 49), min(2068, today.year + 50)
+    evals = 0
+    for ai, props in ais:
+        if props.get('type') != 'date':
+            continue
+        fmt = props['format']
+        for _ in range(6 if tier == 'quick' else 60):
+            y = rng.choice((y_lo, y_hi, rng.randrange(y_lo, y_hi + 1), rng.randrange(y_lo, y_hi + 1)))
+            d = datetime.date(y, rng.randrange(1, 13), rng.randrange(1, 29))
+            dt = datetime.datetime(d.year, d.month, d.day, rng.randrange(1, 24), rng.randrange(1, 60))
+            if fmt == 'N6':
+                vals = [d]
+            elif fmt == 'N10':
+                vals = [dt]
+            elif fmt in ('N6[+N4]', 'N6+N..4', 'N6[+N..4]'):
+                vals = [d, dt]
+            elif fmt in ('N8[+N..4]', 'N8+N..4'):
+                vals = [dt.replace(minute=0), dt, dt.replace(second=rng.randrange(1, 60))]
+            elif fmt in ('N6[+N6]', 'N6..12'):
+                d2 = datetime.date(rng.randrange(y_lo, y_hi + 1), rng.randrange(1, 13), rng.randrange(1, 29))
+                vals = [d, (d, d2)]
+            else:
+                continue
+            for val in vals:
+                mapping = {ai: val}
+                for s2 in ('', '|'):
+                    for par in (False, True):
+                        o_e = C.outcome(gs1.encode, mapping, s2, par)
+                        evals += 1
+                        ctx = 'sep' if s2 else 'nosep'
+                        cells.add(('mapping-first', fmt, ctx, type(val).__name__))
+                        counters['mappings_encoded_first'] = counters.get('mappings_encoded_first', 0) + 1
+                        w = {'mapping_first': True, 'ai': ai, 'value': repr(val), 's2': s2, 'par': par, 'x': '', 'sep': s2}
+                        if o_e[0] != 'ok':
+                            add(viols, 'C16|mapping-first|encode-fails|%s/date|%s' % (fmt, ctx), 'encode(%r, %r, %r) fails: %s' % (mapping, s2, par, o_e[1:3]), w)
+                            continue
+                        o_d = C.outcome(gs1.info, o_e[1], s2)
+                        evals += 1
+                        if o_d != ('ok', mapping):
+                            how = 'other-century' if o_d[0] == 'ok' and isinstance(o_d[1].get(ai), (datetime.date, datetime.datetime)) and isinstance(val, datetime.date) \
+                                and getattr(o_d[1].get(ai), 'year', 0) % 100 == val.year % 100 and o_d[1].get(ai).year != val.year else 'differs'
+                            add(viols, 'C16|mapping-first|%s|%s/date|%s' % (how, fmt, ctx), 'info(encode(%r, %r, %r) = %r) = %r' % (
+                                mapping, s2, par, o_e[1], o_d[1] if o_d[0] == 'ok' else o_d[1:3]), dict(w, x=o_e[1]))
+    return evals
+
+
 def work(shard, tier):
     from stdnum import gs1_128
     rng = C.rng_for('C16', shard['name'])
@@ -295,6 +347,8 @@ def work(shard, tier):
     for _ in range(n):
         evals += one_case(gs1_128, ais, rng, tier, viols, cells, counters)
         counters['cases'] += 1
+    if shard['part'] == 0:
+        evals += mapping_first(gs1_128, ais, rng, tier, viols, cells, counters)
     samples = counters.pop('_samples')
     return {'evaluations': max(evals, 1), 'nontrivial': 0, 'nontrivial_keys': ['|'.join(map(str, c)) for c in cells],
             'violations': list(viols.values()), 'samples': samples, 'counters': counters, 'maxes': {'ais_in_registry': len(ais)}}
@@ -309,6 +363,14 @@ def finish(agg, tier):
 def replay(w):
     from stdnum import gs1_128
     viols = {}
+    if w.get('mapping_first'):
+        import datetime  # noqa: F401
+        val = eval(w['value'], {'datetime': datetime})
+        mapping = {w['ai']: val}
+        o_e = C.outcome(gs1_128.encode, mapping, w['s2'], w['par'])
+        if o_e[0] != 'ok' or C.outcome(gs1_128.info, o_e[1], w['s2']) != ('ok', mapping):
+            add(viols, 'C16|mapping-first|replay', 'mapping %r does not survive encode/decode' % (mapping,), w)
+        return list(viols.values())
     x, sep = w['x'], w['sep']
     o_info = C.outcome(gs1_128.info, x, sep)
     if o_info[0] != 'ok':
